@@ -3,7 +3,7 @@ from harness import common as C
 from harness import l2
 
 FILES = ["Engine/Toposort.v", "Engine/ToposortProof.v", "Engine/Tagged.v", "Engine/Tower.v", "Engine/Run08.v",
-         "Engine/TaggedProof.v", "Props/C19.v"]
+         "Engine/TaggedProof.v", "Engine/RenameProof.v", "Engine/RenameEval.v", "Props/C19.v"]
 RULE = ("histories: sequences of random nested programs run in ONE interpreter without resetting anything, with "
         "planted failures (raise at an arbitrary operation of the forward evaluation, inside inner traces, caught "
         "by try/except at any enclosing level or escaping); each call is compared with the history-free spec and "
@@ -69,7 +69,7 @@ def replay(rp):
     return 1
 
 
-TECHNIQUE = "Coq theorem on the trace-depth counter (monotone; restored by normal exits) + correspondence of whole call histories with planted faults against the model started from the leaked state and against the history-free spec"
+TECHNIQUE = "Coq theorem for all programs: the tagged evaluator commutes with strictly increasing renamings of trace ids, hence every call's result is the same from every counter state earlier (failed) calls can leave; counter bookkeeping theorems for both supplies; + correspondence of whole call histories with planted faults against the model started from the leaked state and against the history-free spec"
 DESIGN_REF = "DESIGN.md 4.19"
-LEVEL_TEXT = "Proved: counter bookkeeping for all programs. Shift-invariance of results under a leaked counter: tied by history correspondence (partial)."
+LEVEL_TEXT = "Proved in full on the model for the design /repo implements (increasing id supply): result of every program independent of the counter state left by any history. Tie: whole-history correspondence with planted faults (forward and backward)."
 LEVEL_NOTE = "Trusted: Coq kernel; model tied by correspondence; only exception faults raised from user code are injected."
